@@ -61,7 +61,9 @@ def run : Ledger → List Ev → Option (Ledger × List Nat)
 
 /-! ### Scripts -/
 
-inductive Wire | i64 | i32 | f64 | str
+inductive Wire
+  | i64 | i32 | f64 | str
+  | two        -- two columns: the first needs and passes a cast, the second fails it when `bad`
   deriving DecidableEq, Repr
 
 inductive End | ok | err | panic | fin | cancel
@@ -98,6 +100,7 @@ def castOf (k : Kind) (w : Wire) (bad : Bool) : CastOutcome :=
     | .i32 => .ok
     | .f64 => if bad then .fail else .ok
     | .str => .fail
+    | .two => if bad then .fail else .ok
 
 /-- the refused emits `j = from, …, from+n-1`: built, refused by `Emit`, released by the emitter -/
 def refused (i : Nat) (e : Nat) : Nat → Nat → List Ev
@@ -147,6 +150,9 @@ def streamEvents (k : Kind) (w : Wire) (sz : Sizes) : Nat → List Turn → List
 inductive Call
   | unary (m : UMethod) (sz : Sizes)
   | stream (k : Kind) (w : Wire) (sz : Sizes) (turns : List Turn)
+  /-- `castRecordBatch` applied to an input whose buffers the framework allocated itself (what an
+  externally resolved stream input is), then everything released: `sz.e` = the input batch. -/
+  | castInput (w : Wire) (bad : Bool) (sz : Sizes)
   deriving Repr
 
 def callEvents : Call → List Ev
@@ -154,5 +160,10 @@ def callEvents : Call → List Ev
   | .unary .badparams _ => []                -- refused before the handler, nothing built
   | .unary _ _ => [.sample]                  -- error / panic / void: no result batch
   | .stream k w sz turns => streamEvents k w sz 0 turns
+  | .castInput w bad sz =>
+    -- a failed cast releases the columns it had already cast; the input datum never outlives the call
+    match castOf .xch w bad with
+    | .ok => [.acq (.emit 0 0) sz.e, .acq (.cast 0) sz.c, .sample, .rel (.cast 0), .rel (.emit 0 0)]
+    | _ => [.acq (.emit 0 0) sz.e, .sample, .rel (.emit 0 0)]
 
 end Vgi.Ledger
